@@ -24,8 +24,28 @@ def chunks(lst, n):
     return [lst[i:i + k] for i in range(0, len(lst), k)]
 
 
-CONFIGS_QUICK = [("c0", dict(exhaustive=False, serialize_empty=False)), ("c1", dict(exhaustive=True, serialize_empty=True))]
-CONFIGS_THOROUGH = CONFIGS_QUICK + [("c2", dict(exhaustive=True, serialize_empty=False)), ("c3", dict(exhaustive=False, serialize_empty=True))]
+# quick: the two configurations in which the flags differ (each flag is seen on and off, and a
+# generator that confuses the two switches cannot hide); thorough: all four
+CONFIGS_QUICK = [("c2", dict(exhaustive=True, serialize_empty=False)), ("c3", dict(exhaustive=False, serialize_empty=True))]
+CONFIGS_THOROUGH = CONFIGS_QUICK + [("c0", dict(exhaustive=False, serialize_empty=False)), ("c1", dict(exhaustive=True, serialize_empty=True))]
+
+
+def unknown_variants(gen_dir):
+    """{type name: does the generated enum have an Unknown variant} for every `pub enum` in
+    the tree (read from the emitted source, so that the dispatcher compiles whatever the
+    generator did with the exhaustive switch)"""
+    import re
+    out = {}
+    for root, _, files in os.walk(gen_dir):
+        for f in files:
+            if not f.endswith(".rs"):
+                continue
+            text = open(os.path.join(root, f)).read()
+            for m in re.finditer(r"pub enum (\w+) \{(.*?)\n\}", text, re.S):
+                # the catch-all variant wraps the emitted `Unknown` struct (`Unknown_` when a
+                # listed member is itself called unknown)
+                out[m.group(1)] = bool(re.search(r"\bUnknown_?\(\s*(\w+::)*Unknown_?\s*\)", m.group(2)))
+    return out
 
 
 def name_fn(kind, cfgname, name, exhaustive):
@@ -91,13 +111,18 @@ class TypesBuild:
             k = sorted(failed)[0]
             self.report.cap("generator failed on the shared type space (chunk %s): %s — C03's business, no verdict here" % (k, failed[k][1][-400:]))
             return False
+        # what the generator actually emitted for the exhaustive switch (C10 judges it)
+        self.has_unknown = {}
+        for ci, ch in enumerate(self.chunks):
+            for cname, cfg in self.configs:
+                self.has_unknown[(ci, cname)] = unknown_variants(os.path.join(self.root, "gen", "k%d" % ci, cname))
         members = []
         for ci, ch in enumerate(self.chunks):
             mods = "\n".join('#[path = "%s/mod.rs"]\nmod %s;' % (os.path.join(self.root, "gen", "k%d" % ci, cname), cname) for cname, _ in self.configs)
             arms = []
             for name, kind, _shape in ch["index"]:
                 for cname, cfg in self.configs:
-                    arms.append('        "%s:%s" => probe::run::<%s::com::verif::%s>(req, %s),' % (cname, name, cname, name, name_fn(kind, cname, name, cfg["exhaustive"])))
+                    arms.append('        "%s:%s" => probe::run::<%s::com::verif::%s>(req, %s),' % (cname, name, cname, name, name_fn(kind, cname, name, not self.has_unknown[(ci, cname)].get(name, not cfg["exhaustive"]))))
             for name, kind, shape in ch["index"]:
                 if plain_capable(name, kind, shape):
                     for cname, cfg in self.configs:
@@ -350,7 +375,7 @@ def main():
     a.replay_case = None
     if a.replay:
         a.replay_case = json.load(open(a.replay))["case"]
-    level = {"C12": "exploration", "C02": "model_checking", "C10": "model_checking", "C14": "model_checking", "C03": "exploration", "C17": "exploration"}[a.prop]
+    level = {"C12": "exploration", "C02": "model_checking", "C10": "model_checking", "C14": "model_checking", "C03": "exploration", "C17": "exploration", "C05": "model_checking"}[a.prop]
     rep = Report(a.prop, level)
     if a.prop == "C02":
         run_c02(a, rep)
@@ -369,6 +394,9 @@ def main():
     elif a.prop == "C17":
         import c17
         c17.run(a, rep)
+    elif a.prop == "C05":
+        import c05
+        c05.run(a, rep, TypesBuild, tref)
     else:
         raise SystemExit("unknown property " + a.prop)
     if a.replay:
